@@ -26,11 +26,15 @@ _REG = {}
 class GateFS:
     """in-memory filesystem; every file operation is logged and can be gated by a controller"""
 
-    def __init__(self, files, key=None):
+    def __init__(self, files, key=None, shared=False):
         self.key = key or f"fs{len(_REG)}"
         _REG[self.key] = self
         self.files = files
         self.handles = 0
+        # shared=True models fsspec's MemoryFileSystem: every open of a path returns the SAME file object, rewound, and close() does not
+        # close it - concurrent loads of one image then share one file position (validated against fsspec in props/c19.validate_stubs)
+        self.shared = shared
+        self.shared_files = {}
         self.ctl = None  # Controller during replay
         self.rec = None  # Recorder during recording
         self.lock = threading.Lock()
@@ -41,6 +45,12 @@ class GateFS:
     def open(self, url, mode="rb", **kw):
         if url not in self.files:
             raise FileNotFoundError(url)
+        if self.shared:
+            with self.lock:
+                f = self.shared_files.setdefault(url, GateFile(self, url, "shared"))
+            self._event(("open", f.ident()))
+            f.pos = 0
+            return f
         with self.lock:
             self.handles += 1
             hid = self.handles
@@ -83,6 +93,8 @@ class GateFile:
         return out
 
     def close(self):
+        if self.fs.shared:
+            return  # MemoryFile.close() keeps the object usable
         self.fs._event(("close", self.ident()))
         self.closed = True
 
@@ -204,15 +216,20 @@ SCENARIOS = {
     "pickled-copy": [("a", slice(0, 2)), ("a_copy", slice(0, 2))],
     "three-loads": [("a", slice(0, 2)), ("b", slice(0, 4)), ("a", slice(1, 3))],
     "three-variables": [("a", slice(0, 2)), ("b", slice(2, 4)), ("c", slice(1, 3))],
+    # the same scenarios on a filesystem whose opens of one path share one file object / position (fsspec memory://)
+    "same-variable/same-chunk@shared-handle": [("a", slice(0, 1)), ("a", slice(1, 2))],
+    "same-variable/different-chunks@shared-handle": [("a", slice(0, 2)), ("a", slice(2, 4))],
+    "pickled-copy@shared-handle": [("a", slice(0, 2)), ("a_copy", slice(2, 4))],
+    "different-variables@shared-handle": [("a", slice(0, 2)), ("b", slice(1, 3))],
 }
 
 
-def setup(names_needed):
+def setup(names_needed, shared=False):
     """fresh filesystem, arrays and xarray variables for one scenario; the real code creates the (traced) locks"""
     from ceos_alos2 import xarray as X
 
     TracedLock, TracedArray = make_traced_lock(), make_traced_array()
-    fs = GateFS({})
+    fs = GateFS({}, shared=shared)
     saved = X.SerializableLock
     X.SerializableLock = TracedLock
     try:
@@ -231,7 +248,7 @@ def setup(names_needed):
 def record(scenario):
     """sequential runs -> list of event programs (one per load) + the sequential results"""
     loads = SCENARIOS[scenario]
-    fs, variables, datas = setup({nm for nm, _ in loads})
+    fs, variables, datas = setup({nm for nm, _ in loads}, shared=scenario.endswith("@shared-handle"))
     programs, results = [], []
     for nm, sl in loads:
         rec = Recorder()
@@ -293,7 +310,7 @@ def encode(programs):
                     if j == i:
                         continue
                     for m, ev2 in enumerate(q):
-                        if ev2[0] in ("seek", "read", "close") and ev2[1] == h:
+                        if ev2[0] in ("seek", "read", "close", "open") and ev2[1] == h:
                             if ev2[0] == "close":
                                 hazards.append(T[j][m] < T[i][k])
                                 labels.append((f"load {j} closes {h} before load {i} uses it", (j, m), (i, k)))
@@ -408,7 +425,7 @@ class Controller:
 def replay(scenario, schedule, programs):
     """run the loads concurrently, gated events in the order of `schedule`; -> dict(reproduced, detail)"""
     loads = SCENARIOS[scenario]
-    fs, variables, datas = setup({nm for nm, _ in loads})
+    fs, variables, datas = setup({nm for nm, _ in loads}, shared=scenario.endswith("@shared-handle"))
     gated = ("acquire", "open", "seek", "read", "close")
     order = [i for i, k in schedule if programs[i][k][0] in gated]
     ctl = Controller(order)
